@@ -8,7 +8,12 @@ Inductive exn :=
 | IndexError | ValueError | OverflowError | StructError | UnicodeDecodeError | KeyError
 | AssertionError | TypeError | AttributeError | OutOfFuel
 | UnparsableMessage | BadRequest | DecodeError | ProtectionInvalid | ReplayError
-| ContextUnavailable | NotFound | OtherError (n : Z).
+| ContextUnavailable | NotFound | NotImplementedError | RuntimeError | StopIteration | ZeroDivisionError
+| LibraryShutdown | NetworkError | ConRetransmitsExceeded | MessageError | ConToMulticast
+| ResourceChanged | UnexpectedBlock1Option | UnexpectedBlock2 | MissingBlock2Option | NotObservable | ObservationCancelled
+| MalformedUrlError | IncompleteUrlError | AnonymousHost | InvalidPathError
+| UnsupportedMethod | MethodNotAllowed | NoResource | RequestEntityIncomplete | ContinueException
+| CloseConnection | OtherError (n : Z).
 
 Inductive M (A : Type) := Ok (a : A) | Raise (e : exn).
 Arguments Ok {A} a.
